@@ -292,7 +292,13 @@ pub fn generate(_ctx: &mut Ctx, seed: u64, i: usize, mode: &str) -> Case {
     pool.push("nofile.py:b0".into());
     pool.push(" : b1 ".into());
     let allow_nest = mode != "select";
-    let plans: Vec<FilePlan> = paths.iter().map(|(p, c)| plan_file(&mut rng, p, c, &mut names, &pool, allow_nest)).collect();
+    let mut plans: Vec<FilePlan> = paths.iter().map(|(p, c)| plan_file(&mut rng, p, c, &mut names, &pool, allow_nest)).collect();
+    // one file in six separates the tag word from its first attribute by a tab in EVERY tag of the file (any white space will do)
+    for plan in plans.iter_mut() {
+        if rng.chance(1, 6) {
+            for l in plan.lines.iter_mut() { *l = l.replace("<block ", "<block\t"); }
+        }
+    }
     let u = [0usize, 0, 1, 3, 10][rng.below(5)];
     let mut diff = String::new();
     let mut files = vec![];
